@@ -307,6 +307,19 @@ def cell_sweep(fc, cell, at):
     if isinstance(layer_expr, ast.Call) and _src(layer_expr.func) in ("itertools.chain.from_iterable", "chain.from_iterable") and \
             len(layer_expr.args) == 1 and is_nodelist_expr(fc, layer_expr.args[0], head):
         return dict(layers=("all",), loops=loops, partial=_partial_of(fc, loops))
+    if isinstance(layer_expr, ast.Call) and _src(layer_expr.func) in ("itertools.chain.from_iterable", "chain.from_iterable") and \
+            len(layer_expr.args) == 1:
+        # ... of a slice NL[a:] / NL[a:depth+1], written in place or through a local bound once
+        arg = layer_expr.args[0]
+        if isinstance(arg, ast.Name):
+            da, ea = fc.reaching(arg.id, head)
+            if not ea and len(da) == 1 and da[0][1][0] == "assign":
+                arg = da[0][1][1]
+        if isinstance(arg, ast.Subscript) and isinstance(arg.slice, ast.Slice) and arg.slice.step is None and is_nodelist_expr(fc, arg.value, head) and \
+                (arg.slice.upper is None or _src(arg.slice.upper) in ("self.partition.get_depth() + 1", "1 + self.partition.get_depth()",
+                                                                     "self.partition.depth + 1", "len(self.partition.get_node_list())", "len(node_list)")):
+            lo = arg.slice.lower
+            return dict(layers=("all",) if lo is None or _src(lo) == "0" else ("from", lo), loops=loops, partial=_partial_of(fc, loops))
     if isinstance(layer_expr, ast.Call) and _src(layer_expr.func) in ("itertools.chain", "chain") and len(layer_expr.args) == 1 and \
             isinstance(layer_expr.args[0], ast.Starred) and is_nodelist_expr(fc, layer_expr.args[0].value, head):
         return dict(layers=("all",), loops=loops, partial=_partial_of(fc, loops))
@@ -321,26 +334,39 @@ def cell_sweep(fc, cell, at):
         elif rl[0] == "for":
             it, tg = rl[1], rl[2]
             src_list = None
-            if isinstance(tg, ast.Name):
+            trunc = False
+            if isinstance(tg, ast.Name) and isinstance(it, ast.Call) and _src(it.func) in ("islice", "itertools.islice") and len(it.args) == 2 and \
+                    not it.keywords:
+                # for layer in islice(X, n): the first n elements of X
+                src_list = it.args[0]
+                trunc = True
+            elif isinstance(tg, ast.Name):
                 src_list = it
             elif isinstance(tg, ast.Tuple) and len(tg.elts) == 2 and isinstance(it, ast.Call) and _src(it.func) == "enumerate" and len(it.args) == 1 \
                     and _src(tg.elts[1]) == layer_expr.id:
                 src_list = it.args[0]
-            trunc = False
             if src_list is None and isinstance(tg, ast.Tuple) and len(tg.elts) == 2 and isinstance(it, ast.Call) and _src(it.func) == "zip" and \
                     len(it.args) == 2 and not it.keywords and _src(tg.elts[1]) == layer_expr.id and isinstance(it.args[0], ast.Call) and \
                     _src(it.args[0].func) == "range" and len(it.args[0].args) == 1:
                 # for _, layer in zip(range(n), X): the first n elements of X
                 src_list = it.args[1]
                 trunc = True
+            if src_list is None and isinstance(tg, ast.Name) and isinstance(it, ast.Call) and _src(it.func) in ("islice", "itertools.islice") and \
+                    len(it.args) == 2 and not it.keywords:
+                # for layer in islice(X, n): the first n elements of X
+                src_list = it.args[0]
+                trunc = True
             if src_list is None:
                 return None
             lo = None
             base = src_list
             derived = trunc
+            FULL_UPPER = ("self.partition.get_depth() + 1", "1 + self.partition.get_depth()", "self.partition.depth + 1",
+                          "len(self.partition.get_node_list())", "len(node_list)")
             while True:
                 if isinstance(base, ast.Subscript) and isinstance(base.slice, ast.Slice):
-                    if base is src_list and base.slice.upper is None and base.slice.step is None:
+                    if base is src_list and (base.slice.upper is None or _src(base.slice.upper) in FULL_UPPER) and base.slice.step is None:
+                        # NL[a:] and NL[a:depth+1] are the same layers (the node list has depth+1 layers)
                         lo = base.slice.lower
                     else:
                         derived = True
